@@ -21,7 +21,7 @@ class C03(Check):
     quick_examples = 4000
     thorough_examples = 50000
     rule = (
-        "[drawn in addition since rounds 13-15: async dispatcher serving plain functions and its sequential batch mode; library error classes (ServerError, InternalError ...) raised by methods with their own message / data; typed classes raised with a code of their own; a view whose constructor raises KeyError] "
+        "[round 16: clean batches of 10-33 elements; every boundary error code (32 / 53 / 64 bit, 10**30, 0, -1) raised once per serving mode] [drawn in addition since rounds 13-15: async dispatcher serving plain functions and its sequential batch mode; library error classes (ServerError, InternalError ...) raised by methods with their own message / data; typed classes raised with a code of their own; a view whose constructor raises KeyError] "
         "cases: request documents of C01/C02 (valid / invalid objects, batches, non-JSON text) over the 15-method registry whose failing "
         "methods are scripted per case: protocol errors of the base class with codes over {0, 1, -1, 7, standard codes, reserved server "
         "range, +-2^31, 10^30, random 70-bit} and of every typed class, messages incl. '' and Unicode edge strings, data absent / null / any "
